@@ -406,9 +406,6 @@ theorem lastN_lastN (xs : List Item) : lastN 2 (lastN 3 xs) = lastN 2 xs := by
   congr 1
   omega
 
-/-- a credential equal (dataclass `==`) to a remembered invalid one -/
-def matches_ (j it : Item) : Prop := j.info = it.info ∧ j.prio = it.prio
-
 def InvHist (s : St) : Prop :=
   (∀ k it, lookup k s.cur = some it → ∀ j ∈ s.inv k, ¬ matches_ j it) ∧
   (∀ k, s.inv k = lastN historyBound (s.invAll k))
@@ -588,5 +585,10 @@ theorem keysNodup_of_reach (s : St) (h : Reach s) : KeysNodup s.cur :=
       have : KeysNodup ([] : Cur) := by simp [KeysNodup]
       exact keysNodup_accept _ src [] 0 this)
     keysNodup_step s h
+
+/-- from two runs that differ by one last label: that label's step -/
+theorem step_of_runs (s0 s s' : St) (ls : List Label) (l : Label)
+    (h : run s0 ls = some s) (h' : run s0 (ls ++ [l]) = some s') : step s l = some s' := by
+  rw [run_snoc, h] at h'; exact h'
 
 end Kopf.C12.V
